@@ -96,6 +96,7 @@ struct Hub
     int inits = 0;
     bool refuse_open[6] = { false, false, false, false, false, false }; // one shot: the next open of device id (0,1 cameras; 2,3 storages; 4,5 real cameras) is refused
     int opens_refused = 0;
+    int slow_appends = 0;              // appends during which the storage device spent (virtual) time
     const char* lifecycle_prop = "C08";
     const char* context = ""; // appended to the discriminator of life-cycle failures (e.g. "@configure-while-running")
     void reset();
